@@ -9,8 +9,10 @@ package explore
 
 import (
 	"fmt"
+	"time"
 
 	"github.com/gopatchy/bkl"
+	"github.com/gopatchy/bkl/bklvsync"
 )
 
 type Point struct {
@@ -46,6 +48,11 @@ type Result struct {
 	FirstByObs  map[string][]int // one choice sequence per distinct observation
 	BoundDone   int
 	Divergences int
+	// scheduler only
+	SpawnedThreads int    // goroutines started by the code under test, over all executions
+	Deadlocks      int    // executions that ended with live threads and none enabled
+	Stuck          bool   // a thread blocked outside the scheduler: exploration abandoned
+	StuckAt        string
 }
 
 const TickSentinel = "bklv: step budget exceeded"
@@ -148,13 +155,16 @@ func MapOrdersAt(bound, maxExec int, sites func(string) bool, body func() string
 	return res
 }
 
-// ---- cooperative scheduler over shared-variable access points
+// ---- cooperative scheduler over shared-variable access points, sync operations and go statements
 
 type thread struct {
 	gate     chan struct{}
 	done     bool
 	obs      string
 	accesses int
+	root     int              // the body this thread (transitively) belongs to
+	waiting  func() bool      // non-nil while blocked in the scheduler
+	waitWhat string
 }
 
 type event struct {
@@ -162,9 +172,62 @@ type event struct {
 	finished bool
 }
 
+// StuckLimit bounds the real time one scheduled step may take: a thread that does not come
+// back within it is blocked in an operation the scheduler does not model (a channel, a
+// sync.Cond, ...). The exploration is then abandoned and says so (Result.Stuck) - it is a limit
+// of the method, not a verdict.
+var StuckLimit = 30 * time.Second
+
+type sched struct {
+	ths  []*thread
+	back chan event
+	cur  int
+}
+
+func (s *sched) Yield(what string) {
+	t := s.ths[s.cur]
+	t.accesses++
+	s.back <- event{tid: s.cur}
+	<-t.gate
+}
+
+func (s *sched) WaitUntil(what string, cond func() bool) {
+	if cond() {
+		return
+	}
+	t := s.ths[s.cur]
+	t.waiting, t.waitWhat = cond, what
+	s.back <- event{tid: s.cur}
+	<-t.gate
+	t.waiting = nil
+}
+
+// Go starts f as a new thread of the schedule; the spawn is a scheduling point.
+func (s *sched) Go(f func()) {
+	parent := s.ths[s.cur]
+	t := &thread{gate: make(chan struct{}), root: parent.root}
+	id := len(s.ths)
+	s.ths = append(s.ths, t)
+	go func() {
+		<-t.gate
+		defer func() {
+			if r := recover(); r != nil {
+				// an unrecovered panic in a goroutine takes the process down
+				s.ths[t.root].obs += fmt.Sprintf(" GOROUTINE-PANIC: %v", r)
+			}
+			t.done = true
+			s.back <- event{tid: id, finished: true}
+		}()
+		f()
+	}()
+	s.Yield("go")
+}
+
 // Schedules runs the bodies as cooperative threads and explores every
-// interleaving of their shared-variable access points with at most bound
-// pre-emptions. It returns the per-thread observations of every execution.
+// interleaving of their scheduling points - accesses to mutable package-level
+// variables, Lock/Wait/Do of the sync stand-in, go statements (each new goroutine
+// becomes a thread) - with at most bound pre-emptions. It returns the per-body
+// observations of every execution.
 func Schedules(bound, maxExec int, bodies []func() string, check func(obs []string, schedule []int)) *Result {
 	res := &Result{Outcomes: map[string]int{}, FirstByObs: map[string][]int{}, BoundDone: bound}
 	var rec func(prefix []int)
@@ -173,56 +236,72 @@ func Schedules(bound, maxExec int, bodies []func() string, check func(obs []stri
 			res.Capped = true
 			return
 		}
+		if res.Stuck {
+			return
+		}
 		c := &chooser{prefix: prefix}
 		n := len(bodies)
-		ths := make([]*thread, n)
-		back := make(chan event)
-		cur := -1
+		s := &sched{ths: make([]*thread, n), back: make(chan event), cur: -1}
 		bkl.BklvChoose = func(string, int) int { return 0 } // map order fixed: smallest key first
-		bkl.BklvSharedFn = func(name string) {
-			t := ths[cur]
-			t.accesses++
-			me := cur
-			back <- event{tid: me}
-			<-t.gate
-		}
+		bkl.BklvSharedFn = func(name string) { s.Yield(name) }
+		bklvsync.Sched = s
+		defer func() {
+			bkl.BklvSharedFn = nil
+			bkl.BklvChoose = nil
+			bklvsync.Sched = nil
+		}()
 		for i := range bodies {
-			ths[i] = &thread{gate: make(chan struct{})}
+			s.ths[i] = &thread{gate: make(chan struct{}), root: i}
 			go func(i int) {
-				<-ths[i].gate
+				t := s.ths[i]
+				<-t.gate
 				defer func() {
 					if r := recover(); r != nil {
-						ths[i].obs = fmt.Sprintf("PANIC: %v", r)
+						t.obs = fmt.Sprintf("PANIC: %v", r) + t.obs
 					}
-					ths[i].done = true
-					back <- event{tid: i, finished: true}
+					t.done = true
+					s.back <- event{tid: i, finished: true}
 				}()
-				ths[i].obs = bodies[i]()
+				o := bodies[i]()
+				t.obs = o + t.obs
 			}(i)
 		}
 		steps := 0
+		deadlock := false
 		for {
 			// enabled threads in canonical order: current first, then ascending ids
 			var en []int
-			if cur >= 0 && !ths[cur].done {
-				en = append(en, cur)
+			runnable := func(t *thread) bool { return !t.done && (t.waiting == nil || t.waiting()) }
+			curEnabled := s.cur >= 0 && runnable(s.ths[s.cur])
+			if curEnabled {
+				en = append(en, s.cur)
 			}
-			for i := range ths {
-				if !ths[i].done && i != cur {
+			live := 0
+			for i, t := range s.ths {
+				if !t.done {
+					live++
+				}
+				if i != s.cur && runnable(t) {
 					en = append(en, i)
 				}
 			}
 			if len(en) == 0 {
+				deadlock = live > 0
 				break
 			}
 			pick := 0
 			if len(en) > 1 {
-				free := cur < 0 || ths[cur].done
-				pick = c.choose(len(en), free)
+				pick = c.choose(len(en), !curEnabled)
 			}
-			cur = en[pick]
-			ths[cur].gate <- struct{}{}
-			<-back
+			s.cur = en[pick]
+			s.ths[s.cur].gate <- struct{}{}
+			select {
+			case <-s.back:
+			case <-time.After(StuckLimit):
+				res.Stuck = true
+				res.StuckAt = fmt.Sprintf("thread %d did not reach a scheduling point within %s: blocked in an operation the scheduler does not model", s.cur, StuckLimit)
+				return
+			}
 			steps++
 			if steps > 1_000_000 {
 				panic("explore: schedule did not quiesce")
@@ -230,13 +309,25 @@ func Schedules(bound, maxExec int, bodies []func() string, check func(obs []stri
 		}
 		bkl.BklvSharedFn = nil
 		bkl.BklvChoose = nil
+		bklvsync.Sched = nil
 		res.Executions++
+		if len(s.ths) > n {
+			res.SpawnedThreads += len(s.ths) - n
+		}
 		if len(c.trace) > res.MaxPoints {
 			res.MaxPoints = len(c.trace)
 		}
 		obs := make([]string, n)
-		for i := range ths {
-			obs[i] = ths[i].obs
+		for i := 0; i < n; i++ {
+			obs[i] = s.ths[i].obs
+		}
+		if deadlock {
+			res.Deadlocks++
+			for _, t := range s.ths {
+				if !t.done {
+					obs[t.root] += " DEADLOCK(" + t.waitWhat + ")"
+				}
+			}
 		}
 		seq := make([]int, len(c.trace))
 		for i, p := range c.trace {
